@@ -346,8 +346,33 @@ func ruleMergeIter(r *Run) {
 	}
 	good := true
 	if !instrDominates(initCall, pop) {
-		good = false
-		on.Fail(r.pos(pop.Pos()), "init does not run before the first Pop")
+		// init may be skipped only where a boolean field of the iterator says it already ran: the pop
+		// must be unreachable from the entry without passing init or such a "flag is set" edge
+		reach := map[*ssa.BasicBlock]bool{}
+		work := []*ssa.BasicBlock{next.Blocks[0]}
+		for len(work) > 0 {
+			b := work[len(work)-1]
+			work = work[:len(work)-1]
+			if reach[b] || b == initCall.Block() {
+				continue
+			}
+			reach[b] = true
+			for _, sc := range b.Succs {
+				if f, ok := edgeFact(b, sc); ok {
+					f = normFact(f)
+					if _, base, ok := loadOfField(f.Cond); ok && base == ssa.Value(next.Params[0]) && f.Truth {
+						if bt, ok := f.Cond.Type().Underlying().(*types.Basic); ok && bt.Kind() == types.Bool {
+							continue // "already initialised" edge
+						}
+					}
+				}
+				work = append(work, sc)
+			}
+		}
+		if reach[pop.Block()] {
+			good = false
+			on.Fail(r.pos(pop.Pos()), "init does not run before the first Pop")
+		}
 	}
 	// popped element cell
 	var elemCell *ssa.Alloc
@@ -530,7 +555,8 @@ func ruleMergeIter(r *Run) {
 			}
 		}
 	}
-	// once: guarded by the initiazed flag
+	// once: guarded by a run-once flag, inside init (return if set; set it otherwise) or around its
+	// only call (if !flag { flag = true; init() })
 	flagOK := false
 	if len(initM.Blocks) > 0 {
 		if ifi, ok := initM.Blocks[0].Instrs[len(initM.Blocks[0].Instrs)-1].(*ssa.If); ok {
@@ -549,6 +575,50 @@ func ruleMergeIter(r *Run) {
 				flagOK = retOK && setOK
 			}
 		}
+	}
+	if !flagOK {
+		nSites, nGuarded := 0, 0
+		for _, cf := range p.SrcFuncs() {
+			if cf.Pkg == nil || cf.Pkg.Pkg.Path() != dl {
+				continue
+			}
+			for _, c := range callsIn(cf) {
+				if staticCallee(c) != initM {
+					continue
+				}
+				nSites++
+				recvArg := c.Common().Args[0]
+				for _, f := range factsAt(c.Block()) {
+					fld, base, ok := loadOfField(f.Cond)
+					if !ok || f.Truth || base != recvArg {
+						continue
+					}
+					// the flag is set in the same branch
+					for _, b := range cf.Blocks {
+						if !(b == c.Block() || b.Dominates(c.Block()) || c.Block().Dominates(b)) {
+							continue
+						}
+						same := false
+						for _, f2 := range factsAt(b) {
+							if f2.Cond == f.Cond && !f2.Truth {
+								same = true
+							}
+						}
+						if !same {
+							continue
+						}
+						for _, in := range b.Instrs {
+							if st, ok := in.(*ssa.Store); ok {
+								if n, b2, ok := fieldNameOf(st.Addr); ok && n == fld && b2 == recvArg && isConstBool(st.Val, true) {
+									nGuarded++
+								}
+							}
+						}
+					}
+				}
+			}
+		}
+		flagOK = nSites == 1 && nGuarded >= 1
 	}
 	if !flagOK {
 		igood = false
